@@ -750,6 +750,28 @@ def cmd_iter(width, a, kind, ops, cell=None):
             elif o == 'S':
                 want = sum(dq)
                 consumed = True
+            elif o in ('M', 'm'):
+                want = (max(dq) if o == 'M' else min(dq)) if dq else None
+                consumed = True
+            elif o in ('A', 'P', 'p', 'Y', 'Q', 'Z'):
+                lst = list(dq)
+                if o == 'A':
+                    r = [1, 0]
+                elif o == 'P':
+                    pos = next((i for i, x in enumerate(lst) if x % 2 == 1), None)
+                    r = [0, 0] if pos is None else [pos + 1, len(lst) - pos - 1]
+                elif o == 'p':
+                    pos = next((i for i in range(len(lst) - 1, -1, -1) if lst[i] % 2 == 1), None)
+                    r = [0, 0] if pos is None else [pos + 1, pos]
+                elif o == 'Y':
+                    pos = next((i for i in range(len(lst) - 1, -1, -1) if lst[i] % 2 == 1), None)
+                    r = [(1 << 64) - 1, 0, 0] if pos is None else [lst[pos], 1, pos]
+                elif o == 'Q':
+                    r = lst[::2]
+                else:
+                    r = lst[:2] + [max(len(lst) - 2, 0)]
+                want = parse_tok('q' + ','.join('%x' % x for x in r))
+                consumed = True
             if got is PANIC:
                 out.append(Problem({'C09', 'C14'}, what + ': panicked', 'want=%r' % (want,)))
             elif got != want:
